@@ -265,6 +265,11 @@ def run(facts, rep, ctx):
                 x = strip_refs(x)
                 if x[0] == "call" and x[1] == "std::string::String::new":
                     return "empty"
+                # the component must be the helper's string itself: no trimming / case folding / slicing on the way
+                PASS = ("to_string", "to_owned", "clone", "into", "from", "deref", "branch", "as_str", "as_ref", "borrow")
+                for s in walk(x):
+                    if s[0] == "call" and not s[1].startswith("mila::localization::") and s[1].rsplit("::", 1)[-1] not in PASS:
+                        return "transformed-by:" + s[1].rsplit("::", 1)[-1]
                 for s in walk(x):
                     if s[0] == "call" and s[1].startswith("mila::localization::"):
                         sb = facts.body(s[1])
@@ -288,6 +293,10 @@ def run(facts, rep, ctx):
 
     uniform_application(facts, rep, R3)
     panic_sites(facts, rep, R4, disp)
+    # the filesystem must be built with the game's own localizer, or its operations map paths differently
+    R5 = rep.rule("R14.5", "LayeredFilesystem::new pairs every game with its own localizer (configuration table shared with C12-R12.3)", floor=8)
+    import c12
+    c12.config_table(facts, rep, R5)
 
 
 def derives_from_param(t, idx):
